@@ -649,5 +649,113 @@ func k8() *sched.Scenario {
 		}}
 }
 
-func TestC13Sched(t *testing.T) { run(t, "C13", k2(), k3(), k5(), k8()) }
-func TestC18Client(t *testing.T) { run(t, "C18", k1(), k1b(), k2(), k3(), k5(), k6(), k7(), k8()) }
+// k9: the application installs a permission through Client.CreatePermission while another goroutine
+// closes the relayed socket (which deregisters it at the client under the write lock): both calls return.
+func k9() *sched.Scenario {
+	return &sched.Scenario{Name: "K9-client-createpermission-vs-relay-close", Bound: bound() - 1, FreeBound: 2, Opt: opt,
+		Body: func(*vsched.Sched) (func() []string, func()) {
+			w := newCWorld(100 * time.Millisecond)
+			var nt notes
+			peerA := vtx.PeerSpec["A"]
+			vsched.Go("server", w.autoServer)
+			vsched.Go("app", func() {
+				conn, err := w.cl.Allocate()
+				if err != nil {
+					nt.set("alloc", "failed:"+err.Error())
+
+					return
+				}
+				nt.set("alloc", "ok")
+				w.relayed = conn
+				vsched.Mark()
+				vsched.Go("perm", func() {
+					_ = w.cl.CreatePermission(peerA)
+					nt.set("perm", "done")
+				})
+				_ = conn.Close()
+				nt.set("closer", "done")
+			})
+
+			return func() []string {
+				if nt.get("alloc") != "ok" {
+					return []string{"c13:allocate-failed:" + nt.get("alloc")}
+				}
+				var out []string
+				for _, n := range []string{"perm", "closer"} {
+					if nt.get(n) != "done" {
+						out = append(out, "c18:"+n+"-never-returned")
+					}
+				}
+
+				return out
+			}, w.teardown
+		}}
+}
+
+// k10: two goroutines write to the same peer whose channel is already confirmed: both payloads go out
+// as ChannelData on that channel, each exactly once and byte-identical.
+func k10() *sched.Scenario {
+	return &sched.Scenario{Name: "K10-two-writers-one-bound-peer", Bound: bound() - 1, FreeBound: 2, Opt: opt,
+		Body: func(*vsched.Sched) (func() []string, func()) {
+			w := newCWorld(100 * time.Millisecond)
+			var nt notes
+			peerA := vtx.PeerSpec["A"]
+			vsched.Go("server", w.autoServer)
+			vsched.Go("app", func() {
+				conn, err := w.cl.Allocate()
+				if err != nil {
+					nt.set("alloc", "failed:"+err.Error())
+
+					return
+				}
+				nt.set("alloc", "ok")
+				w.relayed = conn
+				_, _ = conn.WriteTo([]byte("first"), peerA)
+				vsched.IdleSleep(500 * time.Millisecond) // the ChannelBind has been answered
+				w.mu.Lock()
+				w.sent = nil
+				w.mu.Unlock()
+				vsched.Mark()
+				for _, name := range []string{"w1", "w2"} {
+					vsched.Go(name, func() {
+						if _, err := conn.WriteTo([]byte("payload-of-writer-"+name+"-0123456789abcdef"), peerA); err != nil {
+							nt.set(name, "error")
+						} else {
+							nt.set(name, "ok")
+						}
+					})
+				}
+			})
+
+			return func() []string {
+				if nt.get("alloc") != "ok" {
+					return []string{"c13:allocate-failed:" + nt.get("alloc")}
+				}
+				var out []string
+				if nt.get("w1") != "ok" || nt.get("w2") != "ok" {
+					out = append(out, fmt.Sprintf("c13:writeto-did-not-succeed:%s/%s", nt.get("w1"), nt.get("w2")))
+				}
+				w.mu.Lock()
+				defer w.mu.Unlock()
+				got := map[string]int{}
+				for _, s := range w.sent {
+					got[s]++
+				}
+				for _, name := range []string{"w1", "w2"} {
+					want := "chan:0x4000:payload-of-writer-" + name + "-0123456789abcdef"
+					if got[want] != 1 {
+						out = append(out, fmt.Sprintf("c13:payload-of-a-concurrent-writer-emitted-%d-times-on-the-bound-channel", got[want]))
+					}
+					delete(got, want)
+				}
+				if len(got) > 0 {
+					out = append(out, "c13:something-else-than-the-two-payloads-was-emitted\n"+fmt.Sprint(got))
+				}
+
+				return out
+			}, w.teardown
+		}}
+}
+
+func TestC13Sched(t *testing.T) { run(t, "C13", k2(), k3(), k5(), k8(), k10()) }
+func TestC18Client(t *testing.T) { run(t, "C18", k1(), k1b(), k2(), k3(), k5(), k6(), k7(), k8(), k9(), k10()) }
